@@ -869,7 +869,7 @@ func (l *irLoader) newBinaryExprFilter(filter ir.FilterExpr, info *filterInfo) (
 	case ir.FilterVarTypeSizeOp:
 		if rhsValue != nil {
 			result.fn = makeTypeSizeConstFilter(result.src, lhs.Value.(string), tok, rhsValue)
-		} else {
+		} else if rhs.Op == lhs.Op {
 			result.fn = makeTypeSizeFilter(result.src, lhs.Value.(string), tok, rhs.Value.(string))
 		}
 	case ir.FilterVarValueIntOp:
